@@ -433,6 +433,19 @@ def gen_lot_notes(rng):
     return Xact(posts)
 
 
+def gen_implied_rate_with_cancel(rng):
+    """two commodities of opposite sign (an implied conversion rate balances them) beside a third whose postings cancel
+    exactly: whether the cancelled commodity leaves a zero component in the balance depends on the posting order, and
+    must not decide whether the rate is inferred (finding F65)"""
+    c1, c2, c3 = rng.sample(list(COMMS), 3)
+    a = Amt(F(rng.randrange(1, 500)), 0, c1)
+    b = Amt(F(rng.randrange(1, 500)), 0, c2)
+    c = Amt(F(rng.randrange(1, 500)), 0, c3)
+    posts = [Post('Assets:Cash', 'R', a), Post('Assets:Bank', 'R', b), Post('Expenses:Food', 'R', a.neg()), Post('Income:Job', 'R', c.neg())]
+    rng.shuffle(posts)
+    return Xact(posts)
+
+
 def add_null(rng, x):
     """replace one must-balance cost-free posting's amount by an elided one (keeps it balanced)"""
     cands = [i for i, p in enumerate(x.posts) if p.must_balance() and p.amt is not None and p.cost is None and p.lot is None]
